@@ -522,6 +522,9 @@ struct AssertSrc {
     key: Option<Result<Scalar, ()>>,
     superseding: Option<ElementRef>,
     in_mutate: bool,
+    /// members written under a key that is not one of the eight §55.1 names: if the statement is
+    /// accepted at all, the created Assertion must carry them as written (nothing may be dropped)
+    extra: Vec<(String, MutationValue)>,
 }
 
 fn string(s: &str) -> MutationValue {
@@ -650,6 +653,7 @@ fn assert_cases(tier: Tier) -> Vec<Case> {
                                                         key: k.as_ref().map(|x| x.1.clone()),
                                                         superseding: sup.as_ref().map(|x| x.1.clone()),
                                                         in_mutate,
+                                                        extra: Vec::new(),
                                                     })),
                                                 });
                                             }
@@ -658,6 +662,118 @@ fn assert_cases(tier: Tier) -> Vec<Case> {
                                 }
                             }
                         }
+                    }
+                }
+            }
+        }
+    }
+    out
+}
+
+/// Every member under every other spelling of its name (Title, UPPER, mixed, quoted), alone and
+/// next to the canonical member. Member names are case-sensitive identifiers, so these are
+/// different keys: the statement is refused, or whatever was written reaches the Assertion.
+fn assert_spelling_cases() -> Vec<Case> {
+    let members: Vec<(&str, &str, MutationValue, &str)> = vec![
+        // (canonical name, canonical value text, variant value, variant value text)
+        ("by", ":alice", param("other"), ":other"),
+        ("mode", "\"stated\"", string("inferred"), "\"inferred\""),
+        ("stance", "\"support\"", string("reject"), "\"reject\""),
+        ("confidence", "0.95", MutationValue::Value(KipValue::Number(Number::from_f64(0.5).unwrap())), "0.5"),
+        ("at", ":time", param("t9"), ":t9"),
+        ("valid", "{from: :t1}", MutationValue::Object(vec![("from".into(), BoundValue::Param("a9".into()))]), "{from: :a9}"),
+        ("evidence", ":msg", param("ev9"), ":ev9"),
+        ("key", ":ck", string("k9"), "\"k9\""),
+    ];
+    let canonical_value = |name: &str| -> MutationValue {
+        match name {
+            "by" => param("alice"),
+            "mode" => string("stated"),
+            "stance" => string("support"),
+            "confidence" => MutationValue::Value(KipValue::Number(Number::from_f64(0.95).unwrap())),
+            "at" => param("time"),
+            "valid" => MutationValue::Object(vec![("from".into(), BoundValue::Param("t1".into()))]),
+            "evidence" => param("msg"),
+            _ => param("ck"),
+        }
+    };
+    let mut out = Vec::new();
+    for (name, canon_text, variant_value, variant_text) in &members {
+        let title: String = name[..1].to_uppercase() + &name[1..];
+        let mixed: String = name
+            .chars()
+            .enumerate()
+            .map(|(i, c)| if i % 2 == 1 { c.to_ascii_uppercase() } else { c })
+            .collect();
+        let spellings: Vec<(String, String)> = vec![
+            (title.clone(), title.clone()),
+            (name.to_uppercase(), name.to_uppercase()),
+            (mixed.clone(), mixed.clone()),
+            (format!("\"{title}\""), title.clone()),
+            (format!("\"{}\"", name.to_uppercase()), name.to_uppercase()),
+            (format!("\" {name}\""), format!(" {name}")),
+        ];
+        for (key_text, key_string) in spellings {
+            for with_canonical in [false, true] {
+                for variant_first in [false, true] {
+                    for in_mutate in [false, true] {
+                        // by and mode are always present canonically unless they are the member under test
+                        let mut parts: Vec<String> = Vec::new();
+                        let mut src = AssertSrc {
+                            handle: Some("a".into()),
+                            by: None,
+                            mode: None,
+                            stance: None,
+                            confidence: None,
+                            at: None,
+                            valid: None,
+                            evidence: None,
+                            key: None,
+                            superseding: None,
+                            in_mutate,
+                            extra: vec![(key_string.clone(), variant_value.clone())],
+                        };
+                        let canon = |n: &str, text: &str, src: &mut AssertSrc, parts: &mut Vec<String>| {
+                            parts.push(format!("{n}: {text}"));
+                            let v = canonical_value(n);
+                            match n {
+                                "by" => src.by = Some(v),
+                                "mode" => src.mode = Some(v),
+                                "stance" => src.stance = Some(v),
+                                "confidence" => src.confidence = Some(v),
+                                "at" => src.at = Some(v),
+                                "valid" => src.valid = Some(v),
+                                "evidence" => src.evidence = Some(vec![v]),
+                                _ => src.key = Some(Ok(Scalar::Param("ck".into()))),
+                            }
+                        };
+                        if *name != "by" {
+                            canon("by", ":alice", &mut src, &mut parts);
+                        }
+                        if *name != "mode" {
+                            canon("mode", "\"stated\"", &mut src, &mut parts);
+                        }
+                        if with_canonical {
+                            canon(name, canon_text, &mut src, &mut parts);
+                        }
+                        let variant = format!("{key_text}: {variant_text}");
+                        if variant_first {
+                            parts.insert(0, variant);
+                        } else {
+                            parts.push(variant);
+                        }
+                        let stmt = format!("ASSERT ?a (:alice, \"prefers\", \"dark\") {{ {} }}", parts.join(", "));
+                        let text = if in_mutate {
+                            format!("MUTATE {{ CREATE CONCEPT ?other {{ TYPE \"T\" }} {stmt} }}")
+                        } else {
+                            stmt
+                        };
+                        out.push(Case {
+                            group: "assert-spelling",
+                            cell: format!("assert-spelling/{name}"),
+                            text,
+                            expect: Expect::Assert(Box::new(src)),
+                        });
                     }
                 }
             }
@@ -720,6 +836,9 @@ fn check_assert_expansion(stmt: &KmlStatement, src: &AssertSrc) -> Vec<String> {
     }
     if let Some(v) = &src.valid {
         expected.insert("valid_time", v.clone());
+    }
+    for (k, v) in &src.extra {
+        expected.insert(k.as_str(), v.clone());
     }
     let got: Vec<(String, MutationValue)> = create.set_fields.clone().unwrap_or_default();
     let got_map: BTreeMap<&str, MutationValue> = got.iter().map(|(k, v)| (k.as_str(), v.clone())).collect();
@@ -869,6 +988,7 @@ fn main() {
             all.extend(selection_cases());
             all.extend(plan_cases(tier));
             all.extend(assert_cases(tier));
+            all.extend(assert_spelling_cases());
         }
         let case = all
             .into_iter()
@@ -897,6 +1017,7 @@ fn main() {
     cases.extend(selection_cases());
     cases.extend(plan_cases(tier));
     cases.extend(assert_cases(tier));
+    cases.extend(assert_spelling_cases());
     let total = cases.len();
 
     // evaluate in parallel chunks, keep the per-cell tallies
@@ -970,7 +1091,8 @@ fn main() {
          {} field names (engine-owned, Assertion/Evidence/Proposition payload, ordinary) x 7 spellings x 3 positions x {} values; \
          BELIEF (6 forms) x 6 positions x 11 selecting statements; 20 MATCH shapes x 3 tails x 2; 15 bare-id creations; plans of \
          1..3 clauses from {} templates x {} handle-graph shapes; ASSERT with every member subset x value forms x handle x \
-         SUPERSEDING; every accepted tree walked; distinct = distinct accepted texts",
+         SUPERSEDING; each of the 8 ASSERT members under 6 other spellings (Title, UPPER, mixed, quoted) alone and next to the \
+         canonical member, before and after it, standalone and in MUTATE; every accepted tree walked; distinct = distinct accepted texts",
         contexts().len(),
         BINDINGS.len(),
         BLOCKS.len(),
